@@ -157,13 +157,16 @@ def _run_laws(desc):
                          dict(case, tth=tth[i], eta=eta[i], omega=om[i]),
                          {"g": g[:, i], "back": gb[:, i], "angles": [t2[i], ee[i], oo[i]], "margin": margin[i]})
             break
+    g_in = g.copy()
     # (iv-b) the answer for one g-vector does not depend on how many are converted together: batches of 1..5 vectors (a 3x3 batch
     # is the one a layout guess gets wrong) against the slice of the whole-grid answer
     full = np.array([t2, e1, e2, o1, o2])
     starts = sorted(set(int(x) for x in np.linspace(0, n - 6, 24 if tier == "quick" else 96)))
     for k_ in (1, 2, 3, 4, 5):
         for i0 in starts:
-            tb, (ea, eb), (oa, ob) = tr.uncompute_g_vectors(g[:, i0:i0 + k_].copy(), wvln, wedge=wedge, chi=chi)
+            # alternately a contiguous copy and a strided view of the big array (what slicing a table gives)
+            gb = g[:, i0:i0 + k_].copy() if (i0 + k_) % 2 else g[:, i0:i0 + k_]
+            tb, (ea, eb), (oa, ob) = tr.uncompute_g_vectors(gb, wvln, wedge=wedge, chi=chi)
             part = np.array([np.atleast_1d(x) for x in (tb, ea, eb, oa, ob)], float)
             ref_ = full[:, i0:i0 + k_]
             same = part.shape == ref_.shape and bool((np.isnan(part) == np.isnan(ref_)).all()) and \
@@ -174,6 +177,9 @@ def _run_laws(desc):
                                                                                    tth=tth[i0], eta=eta[i0], omega=om[i0]),
                              {"batch_answer": part, "whole_grid_answer": ref_})
                 break
+    if not np.array_equal(g, g_in):
+        sh.violation("uncompute_g_vectors:modifies-the-g-vectors-it-is-given", case, {})
+        g = g_in
     # the two solutions are different diffraction events (unless eta is 0/180 exactly) and one of them is the generating one
     d1 = np.abs((o1 - om + 180) % 360 - 180); d2 = np.abs((o2 - om + 180) % 360 - 180)
     lost = sure & ~((d1 < 1e-6) | (d2 < 1e-6))
